@@ -585,7 +585,13 @@ func IntItem(tok string, seq int) int64 {
 	return h*1000000 + int64(seq)
 }
 
-func StrItem(tok string, seq int) string { return fmt.Sprintf("%s#%d", tok, seq) }
+// strItemTails: what real text streams carry (ANSI colour codes, bells, vertical tabs, NUL, DEL, markup, line separators,
+// non-ASCII); a pure function of seq so that producer and consumer agree.
+var strItemTails = []string{"", "\x1b[31mred\x1b[0m", "\a", "\v\x00", "\x7f", "<&>\"\\", "\u2028\u2029", "\u00e9\U0001F600"}
+
+func StrItem(tok string, seq int) string {
+	return fmt.Sprintf("%s#%d%s", tok, seq, strItemTails[seq%len(strItemTails)])
+}
 
 func subGeneric[T any](a *TokAPI, ctx context.Context, tok string, plan Plan, mk func(seq int) T) (<-chan T, error) {
 	s := a.W.enter(ctx, tok)
